@@ -3035,13 +3035,18 @@ def _coerce_to__arglikes(
 
     elif codea_cls is _type_params:
         coerced = True
+        has_paramspec = False
 
         for a in codea.type_params:
             a_cls = a.__class__
 
+            if has_paramspec and a_cls is not ParamSpec:  # call(**P, T) and call(**P, *T) are invalid
+                raise _coerce_error('_arglikes', '_type_params', 'has args after ParamSpec')
+
             if a_cls is TypeVar:
                 ast = _coerce_to__arglike_ast_TypeVar(a, is_FST, options, parse_params)
             elif a_cls is ParamSpec:
+                has_paramspec = True
                 ast = _coerce_to__arglike_ast_ParamSpec(a, is_FST, options, parse_params)
             elif a_cls is TypeVarTuple:
                 ast, _ = _coerce_to_expr_ast(a, is_FST, options, parse_params, 'expression (arglike)', unmake=False)
